@@ -193,6 +193,38 @@ class Auditor:
             return ('lenof', self.container(e[2]))
         return None
 
+    def str_slice_len(self, e):
+        """exact byte length of `text.get(a..a+k)` (through ?, ok_or, Some payloads, as_bytes): k"""
+        x = norm(e)
+        for _ in range(12):
+            if not isinstance(x, tuple) or not x:
+                return None
+            if x[0] == 'mem' and isinstance(x[1], tuple) and x[1] and x[1][0] == 'h':
+                x = x[1][1]
+            elif x[0] == 'deref':
+                x = x[1]
+            elif x[0] == 'field' and x[2] == '0' and x[1][0] == 'variant' and x[1][2] in ('Some', 'Continue', 'Ok'):
+                x = x[1][1]
+            elif x[0] == 'call' and x[1] in ('<core::result::Result<T, E> as core::ops::try_trait::Try>::branch',
+                                             '<core::option::Option<T> as core::ops::try_trait::Try>::branch',
+                                             'core::option::Option::<T>::ok_or', 'core::option::Option::<T>::ok_or_else',
+                                             'core::str::<impl str>::as_bytes') and x[2]:
+                x = x[2][0]
+            elif x[0] == 'call' and x[1] == 'core::str::<impl str>::get' and len(x[2]) == 2:
+                r = x[2][1]
+                if r[0] == 'agg' and r[1] == 'core::ops::range::Range':
+                    fs = dict(r[3])
+                    a, b = fs.get('start'), fs.get('end')
+                    if a is not None and b is not None:
+                        if b[0] == 'bin' and b[1] == 'Add' and b[2] == a and b[3][0] == 'int':
+                            return b[3][1]
+                        if a[0] == 'int' and b[0] == 'int' and b[1] >= a[1]:
+                            return b[1] - a[1]
+                return None
+            else:
+                return None
+        return None
+
     def container(self, c):
         c = norm(c)
         if c[0] == 'param':
@@ -413,12 +445,22 @@ class Auditor:
                 cap = [g for g in e[3] if str(g).isdigit()] if len(e) > 3 and e[3] is not ANY else []
                 return (0, int(cap[0])) if cap else (0, (1 << 63) - 1)
             if name == 'len' and ('Vec' in c or 'str' in c or 'slice' in c):
+                k = self.str_slice_len(e[2][0]) if e[2] else None
+                if k is not None:
+                    return (k, k)
                 return (0, (1 << 63) - 1)
+            if c in self.f.bodies and '::{' not in c:
+                r = self.ret_range(c)
+                if r:
+                    return r
             fn = self.f.fns.get(c)
             if fn and fn['output'] in TYMAX:
                 return (0, TYMAX[fn['output']])
             return None
         if t == 'un' and e[1] == 'PtrMetadata':
+            k = self.str_slice_len(e[2])
+            if k is not None:
+                return (k, k)
             return (0, (1 << 63) - 1)
         if t == 'var':
             from ..expr import VAR_DEFS
@@ -442,6 +484,25 @@ class Auditor:
         if t == 'lenof':
             return (0, (1 << 63) - 1)
         return None
+
+    def ret_range(self, key):
+        """range of the value a crate function returns, whatever its arguments (from its own body: parameter types,
+        type invariants, masks)"""
+        memo = self.__dict__.setdefault('_retr', {})
+        if key in memo:
+            return memo[key]
+        memo[key] = None
+        cs = self.an.summary(key)
+        if cs is None or cs.ret is None:
+            return None
+        saved = self.reachset
+        self.reachset = None          # no call-site information: the bound must hold for every caller
+        try:
+            r = self.rng(tnorm(self.il.inline(cs.ret)), cs, 0, ())
+        finally:
+            self.reachset = saved
+        memo[key] = r
+        return r
 
     def param_range(self, fnkey, n):
         """range of integer parameter n of fnkey over all call sites inside the audited call graph"""
@@ -738,6 +799,10 @@ class Auditor:
             rl = self.rng(ln, s, blk, env)
             if ri and rl and ri[1] < rl[0]:
                 return 'range: index <= %d < length >= %d' % (ri[1], rl[0])
+            # the index as written (`sq.to_index()`): the range of what that function returns for any argument
+            ri0 = self.rng(tnorm(a['ops'][1]), s, blk, env)
+            if ri0 and rl and ri0[1] < rl[0]:
+                return 'range: index (as returned by the callee for any argument) <= %d < length >= %d' % (ri0[1], rl[0])
             # symbolic: a dominating comparison index < L with L the same length
             cl = self.canon(ln)
             ci = self.canon(idx)
@@ -816,6 +881,48 @@ class Auditor:
                     return dict(src[3]).get('end')
         return None
 
+    def len_lo(self, L, env, s, blk):
+        """lower bound of a length from the guards in force"""
+        lo = 0
+        for cnd, tv in env:
+            if cnd[0] == 'bin' and cnd[1] in ('Lt', 'Ge', 'Gt', 'Le', 'Eq', 'Ne'):
+                a_, b_ = self.canon(cnd[2]), self.canon(cnd[3])
+                if a_ == L:
+                    k = self.rng(cnd[3], s, blk, ())
+                    if k:
+                        if (cnd[1] == 'Lt' and not tv) or (cnd[1] == 'Ge' and tv):
+                            lo = max(lo, k[0])
+                        if (cnd[1] == 'Gt' and tv) or (cnd[1] == 'Le' and not tv):
+                            lo = max(lo, k[0] + 1)
+                        if (cnd[1] == 'Eq' and not tv and k == (0, 0)) or (cnd[1] == 'Ne' and tv and k == (0, 0)):
+                            lo = max(lo, 1)
+            if cnd[0] == 'call' and cnd[1].endswith('::is_empty') and tv is False and cnd[2] and \
+                    ('lenof', self.container(cnd[2][0])) == L:
+                lo = max(lo, 1)
+        return lo
+
+    def first_char(self, s, c, x, env):
+        """`text.chars().next()` on a fresh iterator is Some when the text has at least one byte"""
+        if not (x[0] == 'call' and 'str::iter::Chars' in x[1] and x[1].endswith('::next') and x[2] and x[2][0][0] == 'ref'):
+            return None
+        r = x[2][0]
+        inits = [norm(st['value']) for st in s.stores if st['target'] == r] + [norm(c_['result']) for c_ in s.calls if c_.get('dest') == r]
+        if len(inits) != 1:
+            return None
+        m = match(call('core::str::<impl str>::chars', V('s')), inits[0])
+        if m is None:
+            return None
+        nexts = [c_ for c_ in s.calls if c_['callee'] == x[1] and c_['args'] and c_['args'][0] == r]
+        others = [c_ for c_ in s.calls if c_['callee'] != x[1] and any(a == r for a in c_['args'])]
+        if len(nexts) != 1 or others:
+            return None
+        nb = nexts[0]['blk']
+        if any(nb in s.cfg.reachable_from(y) for y in s.cfg.succ[nb]):
+            return None
+        if self.len_lo(('lenof', self.container(m['s'])), env, s, c['blk']) >= 1:
+            return 'utf8: a string of >= 1 byte has a first character (fresh chars() iterator, single next())'
+        return None
+
     def discharge_call(self, s, c, kind):
         blk = c['blk']
         env = self.guard_env(s, blk)
@@ -833,25 +940,23 @@ class Auditor:
             for gg in guards(s, blk):
                 if gg['cond'] is not None and norm(gg['cond']) == ('discr', x) and gg['vals'] == [1]:
                     return 'guard: matched Some on the same value'
-            return None
+            # colour of a square that piece_on just found occupied (the occupancy views agree on every Board: C03.R1)
+            m = match(call('board::Board::color_on', V('b'), V('sq')), x)
+            if m is not None:
+                po = call('board::Board::piece_on', m['b'], m['sq'])
+                for gg in guards(s, blk):
+                    if gg['cond'] is None:
+                        continue
+                    g = norm(gg['cond'])
+                    if (g[0] == 'discr' and match(po, g[1]) is not None and gg['vals'] == [1]) or \
+                            (match(call('core::option::Option::<T>::is_some', po), g) is not None and truth(gg) is True):
+                        return 'guard: piece_on of the same square is Some, and the piece and colour views agree on every Board (C03.R1)'
+            return self.first_char(s, c, x, env)
         if kind == 'vec-index':
             vec, idx = raw[0], args[1]
             L = ('lenof', self.container(vec))
             ri = self.rng(idx, s, blk, env)
-            # len lower bound from guards
-            lo = 0
-            for cnd, tv in env:
-                if cnd[0] == 'bin' and cnd[1] in ('Lt', 'Ge', 'Gt', 'Le', 'Eq', 'Ne'):
-                    a_, b_ = self.canon(cnd[2]), self.canon(cnd[3])
-                    if a_ == L:
-                        k = self.rng(cnd[3], s, blk, ())
-                        if k:
-                            if (cnd[1] == 'Lt' and not tv) or (cnd[1] == 'Ge' and tv):
-                                lo = max(lo, k[0])
-                            if (cnd[1] == 'Gt' and tv) or (cnd[1] == 'Le' and not tv):
-                                lo = max(lo, k[0] + 1)
-                            if (cnd[1] == 'Eq' and not tv and k == (0, 0)) or (cnd[1] == 'Ne' and tv and k == (0, 0)):
-                                lo = max(lo, 1)
+            lo = self.len_lo(L, env, s, blk)
             if ri and ri[1] < lo:
                 return 'guard: len >= %d > index <= %d' % (lo, ri[1])
             # index = len - k with len >= k
@@ -904,9 +1009,6 @@ CONTRACTS = {
         'documented precondition of make_move: the move was generated for this board, so its source square is occupied',
     ('board::Board::make_move_new', 'unwrap', 'board::Board::piece_on(arg1, chess_move::ChessMove::get_source(arg2))'):
         'documented precondition of make_move_new: the move was generated for this board, so its source square is occupied',
-    ('<board_builder::BoardBuilder as core::convert::From<&board::Board>>::from', 'unwrap',
-     'board::Board::color_on(arg1, *((<core::slice::iter::Iter<\'a, T> as core::iter::traits::iterator::Iterator>::next(&_6) as Some).0))'):
-        'the square was just found occupied by piece_on; occupancy views agree on every Board (C03.R1)',
 }
 
 
